@@ -13,6 +13,7 @@ from __future__ import annotations
 
 import ast
 
+from ..cfg import cfg_of
 from ..flow import deref, flow_of, path_of
 from ..loader import AnalysisError, dotted, last_name, loc, short, walk_local, enclosing_stmt
 from ..util import CP2K, ENGPARTS, GROMACS, LAMMPS, all_calls, kwarg, oriented
@@ -595,6 +596,34 @@ def line_index_alignment(ctx, f):
         ctx.ok(rid, loop, f"{f.name}: every consumed line advances the index once and is classified or ends the call (no continue, no extra read)")
 
 
+def seek_discipline(ctx):
+    """Every poll starts reading at the committed position: in
+    ReadAndProcessOnTheFly.read_and_process_content the processing function is reached only through
+    `seek(self.current_position)`; no other seek (end of file, a cached offset) lies on a path to it.
+    The readers commit `current_position` at frame boundaries (R-13.2); starting anywhere else skips
+    complete frames or lands inside one."""
+    rid = "R-13.9"
+    tree = ctx.tree
+    f = tree.func(ENGPARTS, "ReadAndProcessOnTheFly.read_and_process_content")
+    cfg = cfg_of(f)
+    procs = [c for c in walk_local(f) if isinstance(c, ast.Call) and isinstance(c.func, ast.Attribute) and c.func.attr == "processing_function"]
+    if not procs:
+        raise AnalysisError("R-13.9: the call of the processing function was not found")
+    seeks = [c for c in walk_local(f) if isinstance(c, ast.Call) and isinstance(c.func, ast.Attribute) and c.func.attr == "seek"]
+    good = [c for c in seeks if len(c.args) == 1 and not c.keywords and ast.unparse(c.args[0]) == "self.current_position"]
+    other = [c for c in seeks if c not in good]
+    gn = [cfg.node_of(c) for c in good]
+    for p_ in procs:
+        pn = cfg.node_of(p_)
+        if not good or cfg.reaches(cfg.entry, pn, avoid=gn, labels_excluded=("exc",)):
+            ctx.bad(rid, p_, "the processing function can be reached without `seek(self.current_position)`: a poll does not start at the committed frame boundary", construct="read_and_process_content: no seek to the committed position")
+        elif any(cfg.reaches(cfg.node_of(o), pn, labels_excluded=("exc",)) for o in other):
+            o = next(o for o in other if cfg.reaches(cfg.node_of(o), pn, labels_excluded=("exc",)))
+            ctx.bad(rid, o, f"a poll can start reading at `{short(o, 50)}` instead of the committed position: complete frames between the committed position and that offset are never returned (e.g. when the previous poll stopped on a lone newline and the file did not grow since)", construct=f"read_and_process_content: {short(o, 50)}")
+        else:
+            ctx.ok(rid, p_, "every poll seeks to the committed position before the reader runs")
+
+
 def run(ctx):
     ctx.rule("R-13.6", "line-index arithmetic never divides by a block size that still holds its zero initialiser (no exception on a partial first line)", floor=1)
     ctx.rule("R-13.5", "the byte count that gates the first TRR header read covers the largest header (struct formats of read_trr_header, double precision)", floor=1)
@@ -616,9 +645,12 @@ def run(ctx):
     ctx.attempt(trr_reader, ctx)
     ctx.attempt(give_up_after_fresh_size, ctx)
     ctx.attempt(trr_head_size, ctx)
+    ctx.rule("R-13.9", "every poll of an on-the-fly reader starts at the committed position (no other seek on a path to the reader)", floor=1)
+    ctx.attempt(seek_discipline, ctx)
 
 
 VARIANTS = [
+    B("c13-poll-skips-to-end-when-size-unchanged", ENGPARTS, "                self.file_object.seek(self.current_position)\n", "                if os.path.getsize(self.file_path) == getattr(self, \"_size\", -1):\n                    self.file_object.seek(0, 2)\n                else:\n                    self.file_object.seek(self.current_position)\n                self._size = os.path.getsize(self.file_path)\n", "R-13.9", control=True, why="seeded C13_i"),
     B("c13-trr-data-size-from-first-header", GROMACS, '                        if first_header:\n                            logger.debug("TRR header was: %i", new_bytes)\n                            first_header = False\n                        # Calculate the size of the data:\n                        self.data_size = sum(\n                            header[key] for key in TRR_DATA_ITEMS\n                        )\n', '                        if first_header:\n                            self.data_size = sum(\n                                header[key] for key in TRR_DATA_ITEMS\n                            )\n                            logger.debug("TRR header was: %i", new_bytes)\n                            first_header = False\n', "R-13.3", why="seeded C13_g"),
     B("c13-trr-give-up-on-stale-size", GROMACS, "                                if (\n                                    self.check_poll() is not None\n                                    and os.path.getsize(self.trr_file)\n                                    < self.bytes_read + self.data_size\n                                ):", "                                if self.check_poll() is not None:", "R-13.8", control=True, why="seeded C13_e"),
     B("c13-lammps-lone-newline-continue", ENGPARTS, "            reader_class.previous_position = reader_class.current_position\n            reader_class.current_position = reader_class.file_object.tell()\n            return trajectory, box\n        spl = line.split()", "            reader_class.previous_position = reader_class.current_position\n            reader_class.current_position = reader_class.file_object.tell()\n            continue\n        spl = line.split()", "R-13.7", control=True, why="seeded C13_d"),
